@@ -70,6 +70,15 @@ CHECKS = {
                 "reproducer replay-cluster c03, which is a replay aid, not a solver check.",
         "technique": "Kani/CBMC bounded model checking of verbatim slices of the segment iterator index arithmetic",
     },
+    "C04": {
+        "text": "KERNEL claim (the commit-matching loop; the file-reader twin written with polonius macros, the stream filter and Database::read_transaction are outside): bounded model checking of the verbatim "
+                "SegmentBlock::read_committed_events over a mocked read_record serving every log of 3..5 records the writer plus crashes can leave on disk (commits preceded by their event_count events, flagged single events, "
+                "orphaned events of uncommitted attempts anywhere, transaction ids reused by a retry) and every start offset: a Single result is a flagged event at the start offset; a Transaction result contains only events that "
+                "belong to THAT commit - contiguous, never an orphan, never another transaction's event.",
+        "note": TB + "record decoding (seglog parse + bincode) mocked; SmallVec replaced by an array-backed stand-in (<= 4 events per transaction); the reachable-log grammar is an assumption of the harness "
+                "(its crash part is confirmed by the native reproducer replay-cluster c04 on the real reader/writer and database).",
+        "technique": "Kani/CBMC bounded model checking of the verbatim commit-matching function over symbolic reachable logs",
+    },
     "C07": {
         "text": "Claimed for the gating logic of the two local scan handlers (event lookup was read off as correct and is not encoded; version/sequence queries are outside): bounded model checking of verbatim "
                 "statement ranges of ClusterActor::handle_partition_read_locally and handle_stream_read_locally over a mock iterator that stores ALL events of a small partition log, confirmed or not: for every "
@@ -172,9 +181,9 @@ NOT_APPLICABLE = {
     "C20": "liveness under thread schedules and tokio wake-up semantics: not a bounded safety query",
 }
 NOT_APPLICABLE.update({
-    "C04": "not reached: commit matching (SegmentBlock::read_committed_events) decodes bincode RawEvent/RawCommit records through the sierradb crate; no overlay of that crate was built - nothing claimed",
-    "C05": "attempted, no verdict: Writer::open's recovery scan is a data-dependent loop (every CRC outcome forks, the resume offset then indexes every buffer); CBMC did not finish one crash cut in 20 min even with the cut, "
-           "lengths and start offset concrete (harness kept as harness/seglog/c05.rs, not registered); hydration of the indexes (K2) needs the sierradb indexes - nothing claimed",
+    "C05": "no solver check: Writer::open's recovery scan is a data-dependent loop (every CRC outcome forks, the resume offset then indexes every buffer) and CBMC did not finish one crash cut in 20 min even with the cut, "
+           "lengths and start offset concrete (harness kept as harness/seglog/c05.rs, not registered); index hydration needs the sierradb indexes. A NATIVE experiment (replay-cluster c04 crash_db, not a check) showed a genuine "
+           "defect - after a crash that leaves an uncommitted event the next append skipped its sequence - which was repaired in /repo (196f822); nothing is claimed for C05",
     "C21": "not reached: the command parsers are `combine` parser combinators over heap strings (weak solver target); no harness built - nothing claimed",
 })
 for _p in CHECKS:
